@@ -12,6 +12,9 @@ def split_scripts(text, oracle_out=None, inv_out=None):
         if ln.startswith("#I "):
             if inv_out is not None and cur is not None:
                 d = dict(p.split("=", 1) for p in ln[3:].split())
+                inv_out.setdefault("valid_by_script", {}).setdefault(name, []).append(d.get("valid") == "1")
+                if d.get("checked") == "0":
+                    continue
                 inv_out["states"] = inv_out.get("states", 0) + 1
                 if d.get("valid") == "1":
                     inv_out["valid_states"] = inv_out.get("valid_states", 0) + 1
@@ -52,7 +55,7 @@ class Divergence:
         return {"script": self.script, "first_bad_step": self.step, "component": self.component,
                 "impl_says": self.impl, "model_says": self.model, "op": self.echo}
 
-def compare(impl_blocks, model_blocks, name):
+def compare(impl_blocks, model_blocks, name, valid=None):
     n = max(len(impl_blocks), len(model_blocks))
     for i in range(n):
         if i >= len(impl_blocks):
@@ -60,6 +63,10 @@ def compare(impl_blocks, model_blocks, name):
         ib = impl_blocks[i]
         if ib[0].startswith("!! CRASH"):
             mb = model_blocks[i][0] if i < len(model_blocks) else "<end>"
+            # a crash after the history left the documented contract (a halfface in two live cells, a live entity referring to a
+            # deleted one, ...: Kernel/InvB.v valid_b false on the state BEFORE the call) is not judged
+            if valid is not None and i >= 1 and i - 1 < len(valid) and not valid[i - 1]:
+                return Divergence(name, i + 1, "crash-out-of-contract", ib[0], mb, mb)
             return Divergence(name, i + 1, "crash", ib[0], mb, mb)
         if i >= len(model_blocks):
             return Divergence(name, i + 1, "missing", ib[0], "<no output>", ib[0])
@@ -101,7 +108,7 @@ def lockstep(impl_cmd, model_cmd, script_file, timeout=600, model_env=None):
     outcomes = {"Ok": 0, "Rejected": 0, "Unresolvable": 0}
     ops = {}
     for name, mblocks in sm.items():
-        d = compare(si.get(name, []), mblocks, name)
+        d = compare(si.get(name, []), mblocks, name, inv.get("valid_by_script", {}).get(name))
         if d: divs.append(d)
         steps += len(mblocks)
         for b in mblocks:
